@@ -27,8 +27,10 @@ VF */
 #include "gc.h"
 #include "fiber.h"
 #include <setjmp.h>
+static void *vf_last_env;      /* the environment the interpreter itself created for the running frame, if any */
 void *janet_gcalloc(enum JanetMemoryType type, size_t size) {
     JanetGCObject *p = malloc(size);
+    if (type == JANET_MEMORY_FUNCENV) vf_last_env = p;
 #ifndef VF_REPLAY
     __CPROVER_assume(p != 0);
 #endif
@@ -67,6 +69,7 @@ static JanetFuncDef subdef, def;
 static uint32_t subbc[1] = { JOP_RETURN_NIL };
 static JanetFuncDef *subdefs[2] = { &subdef, &subdef };
 static int32_t envidx[2] = { 0, 0 };
+static int32_t subenvidx[2];      /* the nested definition's environment indices: ARBITRARY integers (an image or asm can hold any) */
 static struct { JanetFunction f; JanetFuncEnv *envs[2]; } fn;
 static JanetFuncEnv env0;
 static Janet envvals[2];
@@ -80,6 +83,8 @@ void harness(void) {
     bc[0] = operands | VF_OP;
     bc[1] = JOP_RETURN_NIL; bc[2] = JOP_RETURN_NIL;
     subdef.bytecode = subbc; subdef.bytecode_length = 1; subdef.slotcount = 1; subdef.arity = 0; subdef.min_arity = 0; subdef.max_arity = 0;
+    subenvidx[0] = (int32_t) vf_u32(); subenvidx[1] = (int32_t) vf_u32();
+    subdef.environments = subenvidx; subdef.environments_length = vf_range(0, 2);
     def.bytecode = bc; def.bytecode_length = 3;
     def.slotcount = VF_SC; def.arity = 0; def.min_arity = 0; def.max_arity = 0; def.flags = 0;
     def.constants = consts; def.constants_length = vf_range(0, 2);
@@ -103,8 +108,18 @@ void harness(void) {
     VF_WITNESS("verified function about to run");
     Janet out;
     JanetSignal sig = janet_continue(fiber, janet_wrap_nil(), &out);
-    (void) sig;
     VF_ASSERT(vf_step >= 1, "the opcode under test was never dispatched (vacuous run)");
+    /* a closure built by this step may only capture environments that exist: those of the running function or the frame's own
+     * (CBMC checks only the upper bound of an index into a flexible array member, so a negative index needs this obligation) */
+    if (VF_OP == JOP_CLOSURE && sig == JANET_SIGNAL_DEBUG && fiber->data == data_before) {
+        Janet made = fiber->data[frame + ((operands >> 8) & 0xFF)];
+        if (janet_checktype(made, JANET_FUNCTION) && janet_unwrap_function(made)->def == &subdef) {
+            JanetFunction *nf = janet_unwrap_function(made);
+            for (int32_t i = 0; i < 2; i++) if (i < subdef.environments_length)
+                VF_ASSERT(nf->envs[i] == &env0 || (vf_last_env != NULL && (void *) nf->envs[i] == vf_last_env), "the new closure captured something that is not an environment of the running function");
+            VF_WITNESS("closure inspected");
+        }
+    }
     /* frame-locality: words below the frame header never change; words above the slots change only by pushing */
     if (fiber->data == data_before) {
         for (int32_t i = 0; i < 32; i++) {
